@@ -20,6 +20,7 @@ pub fn plan_to_json(p: &Plan) -> Value {
         "exact": p.exact,
         "track_survivors": p.track_survivors,
         "check_foreign": p.check_foreign,
+        "stop_on_finding": p.stop_on_finding,
     })
 }
 
@@ -43,6 +44,7 @@ pub fn plan_from_json(v: &Value) -> Plan {
         exact: v["exact"].as_bool().unwrap_or(false),
         track_survivors: v["track_survivors"].as_bool().unwrap_or(false),
         check_foreign: v["check_foreign"].as_bool().unwrap_or(false),
+        stop_on_finding: v["stop_on_finding"].as_bool().unwrap_or(true),
         trace: false,
     }
 }
